@@ -186,6 +186,10 @@ pub fn exec(actor: &mut Actor, rc: &RunCtx, step: &Value) {
     // ---- the operation itself
     let mut out = Map::new();
     let res = catch_unwind(AssertUnwindSafe(|| do_op(actor, rc, &op, step, &kvs, &evt, &mut out)));
+    // what is waiting in this thread's overflow list now (read from the sender itself)
+    if let Some(n) = fastrace::verif::parked_commands() {
+        shared().parked.lock().unwrap().insert(t, n);
+    }
     let m1 = mono_us();
     let w1 = wall_us();
 
